@@ -563,6 +563,16 @@ def run_fse(key):
                     V("fse_layout_dtype_irrelevant", {"strain": float(o2[0]), "strain_contiguous_float64": e_, "axis": v2, "axis_contiguous_float64": v_}, variant=tag)
             except Exception as ex:
                 V("fse_layout_dtype_irrelevant", {"exception": type(ex).__name__, "msg": str(ex)[:200]}, variant=tag)
+        # every LAPACK driver the function accepts gives the same strain and long axis
+        for drv in ("evd", "evr", "evx"):
+            count("fse_driver_irrelevant")
+            try:
+                o3 = d.finite_strain(np.ascontiguousarray(F, dtype=float).copy(), driver=drv)
+                v3 = np.asarray(o3[1], float)
+                if not (abs(float(o3[0]) - e_) <= 1e-9 * max(1.0, abs(e_)) and (v3.shape != (3,) or min(np.abs(v3 - v_).max(), np.abs(v3 + v_).max()) <= 1e-6 or gap_of(F) <= GAP)):
+                    V("fse_driver_irrelevant", {"strain": float(o3[0]), "strain_default_driver": e_, "axis": v3, "axis_default_driver": v_}, driver=drv)
+            except Exception as ex:
+                V("fse_driver_irrelevant", {"exception": type(ex).__name__, "msg": str(ex)[:200]}, driver=drv)
         return e_, v_
 
     def gap_of(F):
